@@ -1695,6 +1695,40 @@ func runFSCase(id string, spec *fsSpec) map[string]any {
 		}
 	}
 	out["subcache"] = sub
+
+	// (3) the in-memory API with copies that DIFFER from the context directory: the caller's files take precedence over the
+	// ones found on disk, so every file of the tree is supplied with the text of some file of the tree (its own or another
+	// one's, which can close a reference cycle the directory does not have).  Only "returns without crashing" is judged.
+	if len(spec.texts) > 0 {
+		names := sortedKeys(spec.texts)
+		h := uint64(1469598103934665603)
+		for _, c := range []byte(id) {
+			h = (h ^ uint64(c)) * 1099511628211
+		}
+		supplied := map[string][]byte{}
+		swapped := map[string]string{}
+		for i, nm := range names {
+			src := nm
+			if (h>>(uint(i)%60))&3 == 0 { // about one file in four gets another file's text
+				src = names[int((h>>7)+uint64(i)*2654435761)%len(names)]
+			}
+			supplied[nm] = []byte(realTexts[src])
+			if src != nm {
+				swapped[nm] = src
+			}
+		}
+		mem := map[string]any{"swapped": swapped}
+		var perr error
+		g := guarded(fsWatchdog, func() { _, perr = eng.Parse(loadfile.NewFileCache(dir, supplied), fsRoot) })
+		mem["class"] = classOf(g, perr)
+		if g.Panic != "" {
+			mem["panic"], mem["panic_site"] = clip(g.Panic, 1500), "engine.Parse(memory):"+panicSite(g.Panic)
+		}
+		if perr != nil && g.Panic == "" && !g.Timeout {
+			mem["err_kind"] = classifyParseErr(perr)
+		}
+		out["parse_mem"] = mem
+	}
 	out["probe_balance"] = s.balance()
 	return out
 }
